@@ -607,7 +607,19 @@ class Interp:
         elif isinstance(target, ast.Subscript):
             base = self.eval(target.value, env)
             if isinstance(target.slice, ast.Slice):
-                raise Unsupported("slice assignment")
+                if not isinstance(base, list):
+                    self.raise_builtin("TypeError", "object does not support slice assignment")
+                lo = self.eval(target.slice.lower, env) if target.slice.lower else None
+                hi = self.eval(target.slice.upper, env) if target.slice.upper else None
+                st = self.eval(target.slice.step, env) if target.slice.step else None
+                for x in (lo, hi, st):
+                    if x is not None and not isinstance(x, int):
+                        self.raise_builtin("TypeError", "slice indices must be integers")
+                try:
+                    base[slice(lo, hi, st)] = self.iterate(value)
+                except ValueError:
+                    self.raise_builtin("ValueError", "attempt to assign sequence of wrong size to extended slice")
+                return
             idx = self.eval(target.slice, env)
             if isinstance(base, list):
                 if not isinstance(idx, int):
